@@ -10,6 +10,8 @@ import (
 	"path"
 	"path/filepath"
 	"strings"
+	"unicode"
+	"unicode/utf8"
 
 	"golang.org/x/mod/module"
 	modzip "golang.org/x/mod/zip"
@@ -68,6 +70,12 @@ func genC05(g *Gen, n int) {
 	for _, fs := range c05FixedLists() {
 		c05EmitCreate(g, "example.com/m", "v1.0.0", fs, "fixed")
 	}
+	for _, fs := range c05SizeLimitLists(false) {
+		c05EmitCreate(g, "example.com/m", "v1.0.0", fs, "size-limited-name-placement")
+	}
+	for _, fs := range c05FoldOrbitLists(g.Rand, false) {
+		c05EmitCreate(g, "example.com/m", "v1.0.0", fs, "fold-orbit-pair")
+	}
 	for g.st.Ops < n {
 		fs := c05GenList(g)
 		mp, mv := zipuPickMod(g.Rand, 8)
@@ -92,6 +100,120 @@ func c05FixedLists() [][]*zipuFile {
 		[]*zipuFile{zeros("a.bin", 5<<20), zeros("b.bin", 5<<20), zeros("c.bin", 5<<20), zeros("d/e.bin", 2<<20), small("LICENSE", "license text"), gomod, small("z.go", "package z\n")},
 		[]*zipuFile{zeros("a.bin", zipu16M), small("b.go", "x"), small("LICENSE", ""), small("sub/LICENSE", "abc")},
 	)
+	return out
+}
+
+// c05SizeLimitLists: the two names with a special size limit (LICENSE, go.mod; 16 MiB each) at and
+// just over that limit, in every PLACEMENT of the name: in the module root (where the limit applies),
+// below one and two directories, as the name of a directory, and as near-miss names (other case,
+// with a suffix or prefix).  The limit is documented for the root file only, and checkFiles and
+// checkZip decide independently which entries it applies to, so a file that Create accepts must not
+// be refused by CheckZip / Unzip on that ground.  This class was missing: the random lists carry
+// contents of a few bytes (over-limit sizes there are declared sizes only, which Create refuses), and
+// the fixed lists had the large contents only in root files or in files with unrelated names.
+// Contents are honest zero bytes (short `z<N>` on the op line).  all = every placement at both sizes
+// (oracle, thorough generator); otherwise the at-limit size only where the limit applies (the quick
+// generator pays about 1.5 s of model time per 16 MiB archive).
+func c05SizeLimitLists(all bool) [][]*zipuFile {
+	zeros := func(p string, n int) *zipuFile { return &zipuFile{path: p, mode: 'r', size: int64(n), content: make([]byte, n)} }
+	small := func(p, c string) *zipuFile { return &zipuFile{path: p, mode: 'r', size: int64(len(c)), content: []byte(c)} }
+	gomod := small("go.mod", "module example.com/m\n")
+	places := []string{
+		"LICENSE", "sub/LICENSE", "a/b/LICENSE", "LICENSE/x.txt", "license", "LICENSE.txt", "sub/xLICENSE",
+		"go.mod", "sub/go.mod", "go.mod/x.go", "sub/go.mod.txt",
+	}
+	if all || thorough {
+		places = append(places, "sub/LICENSE/y", "sub/License", "sub/LICENSE.md", "vendor/LICENSE", "go.mod.bak", "a/go.mod/b/y.go", "GO.MOD", "sub/Go.mod")
+	}
+	var out [][]*zipuFile
+	for _, p := range places {
+		sizes := []int{zipu16M + 1}
+		if all || thorough || p == "LICENSE" || p == "go.mod" {
+			sizes = []int{zipu16M, zipu16M + 1}
+		}
+		if thorough {
+			sizes = []int{zipu16M - 1, zipu16M, zipu16M + 1}
+		}
+		for _, n := range sizes {
+			fs := []*zipuFile{small("a.go", "package a\n"), zeros(p, n)}
+			if p != "go.mod" && !strings.HasPrefix(p, "go.mod/") {
+				fs = append(fs, gomod)
+			}
+			if p != "LICENSE" && !strings.HasPrefix(p, "LICENSE/") {
+				fs = append(fs, small("LICENSE", "license text"))
+			}
+			out = append(out, fs)
+		}
+	}
+	return out
+}
+
+// c05FoldOrbits: every orbit of unicode.SimpleFold with more than one member, members ascending.
+var c05FoldOrbitsCache [][]rune
+
+func c05FoldOrbits() [][]rune {
+	if c05FoldOrbitsCache != nil {
+		return c05FoldOrbitsCache
+	}
+	seen := map[rune]bool{}
+	var out [][]rune
+	for r := rune(0); r <= unicode.MaxRune; r++ {
+		if seen[r] || unicode.SimpleFold(r) == r {
+			continue
+		}
+		orb := []rune{r}
+		for x := unicode.SimpleFold(r); x != r; x = unicode.SimpleFold(x) {
+			orb = append(orb, x)
+			seen[x] = true
+		}
+		out = append(out, orb)
+	}
+	c05FoldOrbitsCache = out
+	return out
+}
+
+// c05FoldOrbitLists: case-variant pairs BEYOND ASCII.  The documented restriction is "no two file
+// paths equal under Unicode case-folding (see strings.EqualFold)", and strings.EqualFold identifies
+// exactly the members of one unicode.SimpleFold orbit.  So: for every orbit with more than one member
+// and every ordered pair (a, b) of distinct members, two paths that differ only in that rune -- as a
+// file name, as the first rune of a directory name, and embedded in a root file name -- next to a
+// go.mod.  Such a list must never be created with both files in the archive.  This class was missing:
+// zipuFoldSweep covers the ASCII letters only, and the random lists meet a non-ASCII pair only through
+// three scenario lists that also contain other invalid names most of the time, so Create (and with it
+// the restrictions clause) was practically never reached with one.
+// all = every orbit (oracle: an implementation-only case costs microseconds; thorough generator);
+// otherwise the structurally special orbits -- more than two members, a member in ASCII, members of
+// different UTF-8 length -- and a random sample of the rest.
+func c05FoldOrbitLists(r *Rand, all bool) [][]*zipuFile {
+	gomod := &zipuFile{path: "go.mod", mode: 'r', size: 21, content: []byte("module example.com/m\n")}
+	var out [][]*zipuFile
+	for _, orb := range c05FoldOrbits() {
+		special := len(orb) > 2 || orb[0] < utf8.RuneSelf
+		for _, x := range orb {
+			if utf8.RuneLen(x) != utf8.RuneLen(orb[0]) {
+				special = true
+			}
+		}
+		if !(all || thorough || special || r.Chance(8)) {
+			continue
+		}
+		for i, a := range orb {
+			for j, b := range orb {
+				if i == j {
+					continue
+				}
+				sa, sb := string(a), string(b)
+				for _, pr := range [][2]string{
+					{"units/" + sa + ".go", "units/" + sb + ".go"},
+					{sa + "it/a.go", sb + "it/b.go"},
+					{"me" + sa + "sage.go", "me" + sb + "sage.go"},
+				} {
+					out = append(out, []*zipuFile{gomod,
+						{path: pr[0], mode: 'r', size: 1, content: []byte("x")}, {path: pr[1], mode: 'r', size: 1, content: []byte("y")}})
+				}
+			}
+		}
+	}
 	return out
 }
 
@@ -126,6 +248,12 @@ func oracleC05(g *Gen, n int) {
 		}
 	}
 	for _, fs := range c05FixedLists() {
+		c05Check(g, "example.com/m", "v1.0.0", fs)
+	}
+	for _, fs := range c05SizeLimitLists(true) {
+		c05Check(g, "example.com/m", "v1.0.0", fs)
+	}
+	for _, fs := range c05FoldOrbitLists(g.Rand, true) {
 		c05Check(g, "example.com/m", "v1.0.0", fs)
 	}
 	for i := 0; i < n; i++ {
